@@ -78,7 +78,9 @@ def tasks(tier):
         small = [x for x in ins if x[3] == 0]
         big = [x for x in ins if x[3] > 0]
         for i in range(0, len(small), 4):
-            out.append({"sort": sort, "depth": depth, "depth_base": depth, "complexes": small[i:i + 4]})
+            # the 2422 labelled 6-vertex complexes of the thorough tier: histories of <= 2 events (<= 3 on everything else)
+            d6 = 2 if tier == "thorough" and small[i][0].startswith("tet6#") else depth
+            out.append({"sort": sort, "depth": d6, "depth_base": d6, "complexes": small[i:i + 4]})
         for x in big:
             # TET(<=5): the sorted and the positively oriented listing are explored to the fixed point in thorough
             out.append({"sort": sort, "depth": depth, "depth_base": depth if tier == "quick" else None, "complexes": [x]})
